@@ -5,6 +5,7 @@ import (
 	"fmt"
 	"math"
 	"math/rand"
+	"reflect"
 	"strconv"
 	"strings"
 	"unicode/utf8"
@@ -127,6 +128,35 @@ func caseVariants(r *rand.Rand, k string) string {
 
 func runC05(c *core.Ctx) {
 	r := c.Rng
+	// decoding is a function of the text: decoding the same text again - after the caller has modified what the
+	// first call returned - gives the same KeyID (no state is shared between results, or kept between calls)
+	redecode := func(text string, first *keyid.KeyID) {
+		if first == nil {
+			return
+		}
+		snap := *first
+		if first.Principals != nil {
+			snap.Principals = make([]string, len(first.Principals))
+			copy(snap.Principals, first.Principals)
+		}
+		for i := range first.Principals {
+			first.Principals[i] = "MODIFIED-BY-CALLER"
+		}
+		first.TransID, first.ReqUser = "x", "y"
+		var again *keyid.KeyID
+		var err error
+		if p, msg := core.Guard(func() { again, err = keyid.Unmarshal(text) }); p {
+			c.Native("panic in keyid.Unmarshal (second call on the same text): "+msg, text)
+			return
+		}
+		if err != nil || again == nil || !reflect.DeepEqual(*again, snap) {
+			c.Native("decoding the same KeyId text a second time gives a different result after the caller modified the first result",
+				map[string]interface{}{"text": text, "first": fmt.Sprintf("%#v", snap), "second": fmt.Sprintf("%#v", again), "err": fmt.Sprint(err)})
+			return
+		}
+		*first = snap
+		c.NativeCheck(1)
+	}
 	emitRound := func(class string, k *keyid.KeyID) {
 		var out string
 		var err error
@@ -136,6 +166,9 @@ func runC05(c *core.Ctx) {
 			out, err = k.Marshal()
 			if err == nil {
 				back, berr = keyid.Unmarshal(out)
+				if berr == nil {
+					redecode(out, back)
+				}
 			}
 		}); p {
 			c.Native("panic in KeyID.Marshal/Unmarshal: "+msg, fmt.Sprintf("%+v", *k))
@@ -166,6 +199,9 @@ func runC05(c *core.Ctx) {
 		if p, msg := core.Guard(func() { back, err = keyid.Unmarshal(text) }); p {
 			c.Native("panic in keyid.Unmarshal: "+msg, text)
 			return
+		}
+		if err == nil {
+			redecode(text, back)
 		}
 		tree, ok := core.JSONTree([]byte(text))
 		dec := "None"
